@@ -25,7 +25,7 @@ import (
 func TestMain(m *testing.M) { hx.Main(m) }
 
 type spec struct {
-	Kind  string `json:"kind"` // listener | dialer | socket | qlen0 | reject | pairbusy | wrongproto | sibling | detachhook | peerloss
+	Kind  string `json:"kind"` // listener | dialer | socket | qlen0 | reject | pairbusy | wrongproto | sibling | detachhook | peerloss | qresize | supersede
 	Tran  string `json:"tran,omitempty"`
 	Err   string `json:"err,omitempty"`
 	Proto string `json:"proto,omitempty"`
@@ -131,9 +131,15 @@ func TestC12(t *testing.T) {
 			}
 		}
 	}
+	// READQ-LEN set again under a parked pipe receiver; a Recv ended without a reply (appended last)
+	cases = append(cases, qresizeCases(r, rnd)...)
 	r.Run(cases, func(c *mon.Case) {
 		sp := c.Spec.(spec)
 		switch sp.Kind {
+		case "qresize":
+			runQResize(c, sp)
+		case "supersede":
+			runSupersede(c, sp)
 		case "peerloss":
 			runPeerLoss(c, sp)
 		case "detachhook":
